@@ -41,11 +41,17 @@ def gen_history(r, lag, short, big=False):
     c = r.random()
     if lag and c < 0.15:
       ops.append(('sleep', r.choice([1, 10, 31, 40])))
+    elif c > 0.93:
+      # graphite-web asks the cache for a series (cached, drained meanwhile, or never seen)
+      ops.append(('query', r.choice(metrics + ['never.stored'])))
     else:
       # timestamps relative to the virtual epoch: some old (eligible), some young
       # (without a lag, a datapoint stamped now or in the future - a sender whose clock runs ahead - must drain like any other)
       base = r.choice([1000000 - 100, 1000000 - 100, 1000000 - 100, 1000000, 1000000 + 50]) if not lag else r.choice([1000000 - 100, 1000000 - 100, 1000000 + 5])
       ops.append(('store', r.choice(metrics), base + r.randrange(4) + (0.5 if r.random() < 0.1 else 0)))
+      if r.random() < 0.06:
+        # clients that send milliseconds, or garbage: timestamps far outside any calendar (far future or far past)
+        ops[-1] = ('store', ops[-1][1], r.choice([1727864000000, 253402300800, 10 ** 15, 0, 1]) + r.randrange(2))
   ndr = r.randint(2, 4) if short else r.randint(nm, 2 * nm + 2)
   if big:
     # one series with a very long queue (a stalled disk): thousands of distinct timestamps
